@@ -138,6 +138,24 @@ def readAt {α} (mem : Int → α) (v : View) (pos : List Nat) : α := mem (v.at
 def logical {α} (mem : Int → α) (v : View) : List α :=
   (List.range (shapeSize v.shape)).map (fun k => mem (v.addr (unravel v.shape k)))
 
+/-! ### one complete kernel over views: `labeled_foldl` of `_labeled.cpp`
+
+`for (i = 0; i != N; ++i, ++iterator, ++literator) if (0 <= *literator < maxlabel)
+ result[*literator] = f(*iterator, result[*literator]);` after `std::fill(result, result+maxlabel, start)`. -/
+
+/-- the loop body on the logical sequences of values and labels -/
+def labeledFoldList {α} (f : α → α → α) (start : α) (maxlabel : Nat) (vals : List α) (labels : List Int) : Array α :=
+  (vals.zip labels).foldl
+    (fun (res : Array α) (p : α × Int) =>
+      if 0 ≤ p.2 ∧ p.2 < (maxlabel : Int) then res.modify p.2.toNat (fun r => f p.1 r) else res)
+    (Array.replicate maxlabel start)
+
+/-- the kernel as the C++ runs it: both arrays read through their iterators, step by step -/
+def labeledFoldView {α} (f : α → α → α) (start : α) (maxlabel : Nat)
+    (mA : Int → α) (vA : View) (mL : Int → Int) (vL : View) : Array α :=
+  let n := shapeSize vA.shape
+  labeledFoldList f start maxlabel ((List.range n).map (readIter mA vA)) ((List.range n).map (readIter mL vL))
+
 /-! ### machine-level detail: `stride()` divides by `sizeof` in *unsigned* arithmetic
 
 `PyArray_STRIDE(a,i)/sizeof(T)` has type `size_t`: a negative byte stride becomes `2^64 - |s|`
@@ -230,6 +248,15 @@ def handle (a : Args) : String :=
     let v := viewOf a
     let ks := List.range (shapeSize v.shape)
     s!"old={showInts (ks.map (fun p => atFlatOldGo v.shape.reverse v.strides.reverse p v.base))} spec={showInts (ks.map (fun k => v.addr (unravel v.shape k)))}"
+  | "lsum" =>
+    let vA : View := { base := a.int "abase", shape := a.nats "shape", strides := a.ints "astrides" }
+    let vL : View := { base := a.int "lbase", shape := a.nats "shape", strides := a.ints "lstrides" }
+    let amem := (a.ints "amem").toArray
+    let lmem := (a.ints "lmem").toArray
+    let mA : Int → Int := fun ad => amem.getD ad.toNat 0
+    let mL : Int → Int := fun ad => lmem.getD ad.toNat 0
+    let r := labeledFoldView (fun (x r : Int) => x + r) 0 (a.nat "maxlabel") mA vA mL vL
+    s!"sum={showInts r.toList}"
   | "norm" =>
     match Norm.ofString (a.str "norm") with
     | none => "error=unknown-norm"
